@@ -16,7 +16,7 @@
     segments (that is the sweep of tools/props/C02.py: testing, with (a) as its oracle). *)
 From Coq Require Import ZArith List Bool Sorted. Import ListNotations.
 From TV Require Import spec.Storage proofs.StorageLemmas proofs.StorageWf model.StructureValidate
-  model.Append proofs.AppendProofs.
+  model.Append proofs.AppendProofs proofs.AppendMerge.
 Open Scope Z_scope.
 
 (** The boolean checker run on every swept output decides the C02 statement. *)
@@ -110,6 +110,18 @@ Theorem C02_realloc_sizes_cover : forall k kv c0 d ds vs advs,
                     /\ leaf <= nvals.
 Proof. exact realloc_sizes_cover. Qed.
 Print Assumptions C02_realloc_sizes_cover.
+
+(** Why real segments are sorted: a model of the sparse co-iteration loop (i = min of the heads of
+    the non-exhausted leaves; every leaf whose head is i advances) visits, for any number of
+    iterations, a strictly increasing in-range sequence when every leaf is a strictly increasing
+    in-range coordinate list -- i.e. what it hands to the append protocol satisfies [seg_okb].
+    (Model-level; the sortedness of the real segments is checked per run by [trace_okb].) *)
+Theorem C02_coiteration_sorted : forall fuel d ls,
+  (forall l, In l ls -> strictly_increasing l = true /\ forall x, In x l -> 0 <= x < d) ->
+  strictly_increasing (visit fuel ls) = true
+  /\ (forall x, In x (visit fuel ls) -> 0 <= x < d).
+Proof. exact visit_strictly_increasing. Qed.
+Print Assumptions C02_coiteration_sorted.
 
 (** Capacity 0 is excluded for a reason: 0 * 2 = 0, the first append overflows. *)
 Theorem C02_capacity_zero_overflows :
